@@ -688,3 +688,23 @@ func TestKF_MMapExactlyFullActiveSegment(t *testing.T) {
 		db.Close()
 	}
 }
+
+// fixed by 7f8bec8: Options.RWMode outside {FileIO, MMap} left the active file without a manager; the first Commit panicked
+func TestKF_InvalidRWModePanicsInCommit(t *testing.T) {
+	dir, _ := ioutil.TempDir("", "kf")
+	defer os.RemoveAll(dir)
+	opt := DefaultOptions
+	opt.Dir = dir
+	opt.RWMode = RWMode(7)
+	defer func() {
+		if r := recover(); r != nil {
+			t.Errorf("REPRODUCED: panic with an invalid RWMode option: %v", r)
+		}
+	}()
+	db, err := Open(opt)
+	if err != nil {
+		return // refused: the repaired behaviour
+	}
+	_ = db.Update(func(tx *Tx) error { return tx.Put("b", []byte("k"), []byte("v"), Persistent) })
+	db.Close()
+}
